@@ -219,7 +219,7 @@ func setRecoveryClock(prev time.Time, class int) {
 
 // recoverImage runs the real Open on a copy of img in a fresh execution, reads every key,
 // commits one more transaction, closes, reopens and reads again.
-func recoverImage(img *vos.FS, cfg dbCfg, prev time.Time, class int, exp crashExpect, atomicity bool, w crashWorkload, crashedIn int) recoverOut {
+func recoverImage(img *vos.FS, cfg dbCfg, prev time.Time, class int, exp crashExpect, atomicity bool, w crashWorkload, crashedIn int, idleClose bool) recoverOut {
 	out := recoverOut{reads: map[string]string{}, found: map[string]bool{}}
 	var fs *vos.FS
 	fail := func(sig, f string, a ...any) {
@@ -288,17 +288,20 @@ func recoverImage(img *vos.FS, cfg dbCfg, prev time.Time, class int, exp crashEx
 		if !readAll("recovered", nil) {
 			return
 		}
-		// a recovered store that is closed again without a single write must still hold everything
-		db.Close()
-		vos.MarkEvent("idle-closed")
-		setRecoveryClock(vtime.Now(), (class+1)%3)
-		db, err = originium.Open("/d", cfg.config())
-		if err != nil {
-			fail("open-error", "Open after recovery + Close without writes returned %v", err)
-			return
-		}
-		if !readAll("after-idle-close-reopen", nil) {
-			return
+		if idleClose {
+			// second mode of a recovery run: the recovered store is closed again without a single write and must
+			// still hold everything (the first mode goes on writing to the recovered instance as it is)
+			db.Close()
+			vos.MarkEvent("idle-closed")
+			setRecoveryClock(vtime.Now(), (class+1)%3)
+			db, err = originium.Open("/d", cfg.config())
+			if err != nil {
+				fail("open-error", "Open after recovery + Close without writes returned %v", err)
+				return
+			}
+			if !readAll("after-idle-close-reopen", nil) {
+				return
+			}
 		}
 		if atomicity {
 			for ti, inf := range exp.inflight {
@@ -551,7 +554,15 @@ func analyseCrashes(c *Ctx, w crashWorkload, run crashRun, o crashOpts, dd crash
 				if c.TimeUp() {
 					return nil
 				}
-				r := recoverImage(v, w.Cfg, run.endNs, cl, exp, o.Atomicity, w, inflight)
+				r := recoverImage(v, w.Cfg, run.endNs, cl, exp, o.Atomicity, w, inflight, false)
+				if r.err == nil && cl == o.Clocks[0] {
+					// the same image once more, closed and reopened without writes before the rest of the run
+					r2 := recoverImage(v, w.Cfg, run.endNs, cl, exp, o.Atomicity, w, inflight, true)
+					st.recoveries++
+					if r2.err != nil {
+						r.err = r2.err
+					}
+				}
 				st.recoveries++
 				if r.err != nil {
 					oe := r.err.(*OracleErr)
@@ -597,7 +608,7 @@ func analyseCrashes(c *Ctx, w crashWorkload, run crashRun, o crashOpts, dd crash
 							dd[h2] = true
 							st.nested++
 							st.distinct++
-							r2 := recoverImage(n2, w.Cfg, run.endNs.Add(time.Second), (cl+1)%3, exp, o.Atomicity, w, inflight)
+							r2 := recoverImage(n2, w.Cfg, run.endNs.Add(time.Second), (cl+1)%3, exp, o.Atomicity, w, inflight, false)
 							st.recoveries++
 							if r2.err != nil {
 								oe := r2.err.(*OracleErr)
